@@ -251,6 +251,26 @@ func (c *C08Case) Run() string {
 	if m := A.unchanged("the operand"); m != "" {
 		return desc + ": " + m
 	}
+	// the result is a new tensor: overwriting it does not reach the operand
+	if rd, ok := res.(*tensor.Dense); ok && rd != t && !rd.Shape().IsScalar() {
+		rdt := dtInt
+		if c.Op != "Argmax" && c.Op != "Argmin" {
+			rdt = d
+		}
+		for k, cc := range coordsOf(want.Shape) {
+			nv := conv(rdt, 100+int64(k%20))
+			if eqVal(nv, want.E[k]) {
+				nv = conv(rdt, 99)
+			}
+			var serr error
+			if pan := try(func() { serr = rd.SetAt(nv, cc...) }); pan != "" || serr != nil {
+				return desc + fmt.Sprintf(": writing the result at %v failed: %v %v", cc, pan, serr)
+			}
+		}
+		if m := A.unchanged("the operand"); m != "" {
+			return desc + ": after overwriting the result: " + m
+		}
+	}
 	return ""
 }
 
